@@ -126,7 +126,36 @@ pub fn layouts() -> Vec<Layout> {
         arena: (a2, a2 + 0x1000),
         host: vec![(0xff_ff10, 0x18), (spa + 3, 0x40), (spa, 0x00)],
     };
-    vec![l1, l2]
+    // ---- L3: operands at the last bytes of DRAM and of on-chip RAM (accesses that run off the end of a region),
+    //      all-ones / one register values (carries through every width), every flag set
+    let l3 = Layout {
+        name: "L3",
+        er: [0xffff_ffff, 0x0000_0001, 0x005f_fff0, 0xffff_ffff, a1 + 0x400, 0xff00_0000 | (a1 + 0x700), 0x8000_7fff, sp1 | 0x5a00_0000],
+        ccr: 0x2f,
+        aa8: 0x1e,
+        aa16: 0xff1e,
+        aa24: 0x5f_fff0,
+        d16: 0x000e,
+        d24: 0x00_000e,
+        imm: 0xffff_ffff,
+        jmp24: a1 + 0x500,
+        mind: 0xfc,
+        patches: vec![
+            (0x5f_fff0, vec![0x80, 0x00, 0x7f, 0xff, 0x01, 0x02, 0x03, 0x04, 0x05, 0x06, 0x07, 0x08, 0x09, 0x0a, 0xfe, 0xdc]),
+            (0xff_ff1e, vec![0x12, 0x34, 0x56, 0x78]),
+            (sp1, (0xff00_0000u32 | (a1 + 0x800)).to_be_bytes().to_vec()),
+            (sp1 + 4, (0x0000_0000u32 | (a1 + 0x880)).to_be_bytes().to_vec()),
+            (0xfc, (a1 + 0x600).to_be_bytes().to_vec()),
+            vec_l(9, a1 + 0x900),
+            vec_l(10, a1 + 0x980),
+            vec_l(36, a1 + 0xa00),
+            vec_l(37, a1 + 0xa80),
+        ],
+        p0: a1 + 0x100,
+        arena: (a1, a1 + 0x1000),
+        host: vec![(0x5f_fffe, 0x00), (0xff_ff1f, 0xff), (sp1, 0x7f)],
+    };
+    vec![l1, l2, l3]
 }
 
 fn owners_of(sem: Sem) -> Vec<&'static str> {
@@ -382,8 +411,8 @@ pub fn units(prop: &'static str, tier: Tier) -> Vec<Unit> {
         }
         let ns = sigma.len() as u64;
         let nv = victims.len() as u64;
-        // ---- depth <= 2 (both layouts), depth 3 (L1 in quick, both in thorough)
-        let depth3 = li == 0 || tier == Tier::Thorough;
+        // ---- depth <= 2 (all layouts), depth 3 (L1 and L2 in quick, all in thorough)
+        let depth3 = li < 2 || tier == Tier::Thorough;
         // C20 owns every implemented form: its middle symbols come from the core alphabet
         let mid_core_only = prop == "C20";
         let nmid = if mid_core_only { sigma.iter().filter(|s| s.core).count() as u64 } else { ns };
